@@ -69,9 +69,11 @@ def _sets_flag(run, h, fn, sc, V2):
     """Statements in handler h that set the comm-issue flag."""
     out = []
     for n in ast.walk(h):
-        if isinstance(n, ast.Assign) and any(isinstance(t, ast.Attribute) and t.attr == "_comm_issue"
+        if isinstance(n, ast.Assign) and any(isinstance(t, ast.Attribute) and t.attr == "_comm_issue" and isinstance(t.value, ast.Name) and t.value.id == "self"
                                              for t in n.targets):
-            if isinstance(n.value, ast.Constant) and n.value.value is True:
+            # the flag ensure_connection() reads is the one of the v5 protocol object: `self._comm_issue = True` sets it only in a method of that class
+            # (the legacy protocol object delegates to an inner v5 object and must go through report_comm_issue())
+            if isinstance(n.value, ast.Constant) and n.value.value is True and fn.cls is not None and V2 in fn.cls.mro():
                 out.append(n)
         if isinstance(n, ast.Call) and call_name(n) == "report_comm_issue":
             cs = [c.fn for c in run.A.resolve_call(n, fn, sc) if c.fn is not None]
